@@ -289,9 +289,10 @@ Relabel(h, j) ==
                                    IN IF idx >= 1 /\ idx <= h.n THEN idx ELSE @[k]]], j - 1)
 
 Canon(h) ==
-  IF ~(StoredOK(h) /\ NoDup(h) /\ \A t \in Timers \ Stored(h) : h.ix[t] = -1) THEN h
-  ELSE LET s == SlotSeq(h)
-       IN [Relabel(h, h.n \div Arity) EXCEPT
+  LET s  == SlotSeq(h)
+      st == {s[i] : i \in 1..h.n}
+  IN IF ~(st \subseteq Timers /\ Cardinality(st) = h.n /\ \A t \in Timers \ st : h.ix[t] = -1) THEN h
+     ELSE [Relabel(h, h.n \div Arity) EXCEPT
              !.ex = [k \in Timers |-> IF k <= h.n THEN h.ex[s[k]] ELSE 0],
              !.ix = [k \in Timers |-> IF k <= h.n THEN h.ix[s[k]] ELSE -1]]
 =============================================================================
